@@ -1,9 +1,11 @@
-//@ variant: cap32 DEFS=-DXV_IPS_CAP_MIN=32 NODES=36 ITER=34 CAN=3
-//@ variant: small DEFS=-DXV_IPS_CAP_MAX=4_-DXV_NODES_MAX=6_-DXV_GI_SMALL NODES=8 ITER=6 CAN=4
+//@ variant: cap32 DEFS=-DXV_IPS_CAP_MIN=32 NODES=36 ITER=34 CAN=3 REPL=get_ip
+//@ variant: small DEFS=-DXV_IPS_CAP_MAX=4_-DXV_NODES_MAX=6_-DXV_GI_SMALL NODES=8 ITER=6 CAN=4 REPL=
 //@ tu: libxcm/tp/dns/xcm_dns_cares.c
 //@ enforce: get_ips
+//@ replace: $REPL
 //@ pre-unwind: xv_ai_any.0:$NODES get_ips.0:$ITER
 //@ defs: $DEFS
+//@ flags: --object-bits 10
 //@ props: C13
 //@ expect: postcondition>=2 canary=$CAN
 #include "_unit_dns.h"
